@@ -225,9 +225,10 @@ def finish(rep, level="other", explanation="", assumptions=None, trusted=None):
         "wall_s": round(wall, 3),
         "violations": len(new),
     }
-    os.makedirs(os.path.join(VERIF, "evidence"), exist_ok=True)
-    with open(os.path.join(VERIF, "evidence", rep.pid + ".json"), "w") as f:
-        json.dump(ev, f, indent=1, ensure_ascii=False)
+    if not os.environ.get("VERIF_SCRATCH"):     # set by bin/trymut and bin/seed_install: a run on a deliberately changed tree leaves no evidence
+        os.makedirs(os.path.join(VERIF, "evidence"), exist_ok=True)
+        with open(os.path.join(VERIF, "evidence", rep.pid + ".json"), "w") as f:
+            json.dump(ev, f, indent=1, ensure_ascii=False)
     print("%s: %d rule instances, %d violations (%d listed as known findings), %d functions, %.1fs" % (
         rep.pid, rep.obligations, len(rep.violations), len(listed), len(rep.functions), wall))
     return exit_code
